@@ -321,11 +321,14 @@ impl Attributes {
                 anyhow::bail!("doc attribute for `{path}` must be a string literal");
             };
 
-            let doc = doc.get_or_insert_with(String::new);
-            if !doc.is_empty() {
-                doc.push('\n');
+            // separate lines with a newline, also when the lines so far are empty
+            match &mut doc {
+                None => doc = Some(value.to_string()),
+                Some(doc) => {
+                    doc.push('\n');
+                    doc.push_str(value);
+                }
             }
-            doc.push_str(value);
         }
         Ok(doc)
     }
